@@ -54,7 +54,7 @@ BOUNDS = {
         "C(3,3), C(4,2), T(2,2): every single cell, every pair of cells, every single face, every single node, node set of "
         "every cell; routes 1, 2 (all families) and 3 (cells, faces); C(4,4): every single cell and face, routes 1-3. Scale axis: "
         "C(4,2) *1e-3 and T(2,2) *1e3 (split and single-cell partial). Purity digest of grid / tensors / boundary objects / "
-        "target arrays around every call; 3-d: C(2,2,2) split (python, mixed) and single-cell partial updates; reuse (second discretize on the same dictionary, python inverter) in split."
+        "target arrays around every call; embedded 2-d grids C(4,2)^gen, T(3,2)^gen2 with full 3x3 K (Mpfa: split, single-cell partial); 3-d: C(2,2,2) split (python, mixed) and single-cell partial updates; reuse (second discretize on the same dictionary, python inverter) in split."
     ),
     "thorough": (
         "quick + numba inverter for the all-Dirichlet variant + 3-d grids C(2,2,2), Tet(1,1,1), Tet(2,1,1) for split and partial (single cells/faces/nodes, pairs of "
@@ -97,7 +97,7 @@ def _data(g, info, method, variant, inv, alt=(), extra=None):
     else:
         lab = ["dir"] * len(bf)
     if method == "mpfa":
-        if dim == 3:
+        if dim == 3 or info.get("plane_normal") is not None:  # 3-d grid, or 2-d grid embedded in 3-d: full 3x3 tensor
             perm = pp.SecondOrderTensor(kxx=kxx, kyy=kyy, kzz=kzz, kxy=kxy, kxz=kxy, kyz=0.5 * kxy)
         else:
             perm = pp.SecondOrderTensor(kxx=kxx, kyy=kyy, kxy=kxy)
@@ -180,9 +180,10 @@ G2 = {
     "C33": {"kind": "C", "n": [3, 3]}, "C42": {"kind": "C", "n": [4, 2]}, "T22": {"kind": "T", "n": [2, 2]},
     "C53": {"kind": "C", "n": [5, 3]}, "T32": {"kind": "T", "n": [3, 2]}, "C44": {"kind": "C", "n": [4, 4]},
     "C42s": {"kind": "C", "n": [4, 2], "scale": 1e-3}, "T22s": {"kind": "T", "n": [2, 2], "scale": 1e3},
+    "C42e": {"kind": "C", "n": [4, 2], "embed": "gen"}, "T32e": {"kind": "T", "n": [3, 2], "embed": "gen2"},
 }
 G3 = {"C222": {"kind": "C", "n": [2, 2, 2]}, "Tet111": {"kind": "Tet", "n": [1, 1, 1]}, "Tet211": {"kind": "Tet", "n": [2, 1, 1]}}
-NCELLS = {"C42s": 8, "T22s": 8, "C33": 9, "C42": 8, "T22": 8, "C53": 15, "T32": 12, "C44": 16, "C222": 8, "Tet111": 6, "Tet211": 12}
+NCELLS = {"C42e": 8, "T32e": 12, "C42s": 8, "T22s": 8, "C33": 9, "C42": 8, "T22": 8, "C53": 15, "T32": 12, "C44": 16, "C222": 8, "Tet111": 6, "Tet211": 12}
 GRIDS = dict(G2, **G3)
 
 
@@ -201,6 +202,11 @@ def cases(tier):
             out.append({"part": "split", "method": m, "grid": gk, "variant": 0, "inv": "python"})
             for mech in (1, 2, 3):
                 out.append({"part": "partial", "method": m, "grid": gk, "family": "cell1", "mech": mech, "inv": "python", "slice": [0, 1]})
+    for gk in ("C42e", "T32e"):  # 2-d grids embedded in a tilted plane (Mpfa only: the flow method used on fracture grids)
+        for inv in ("python", "numba"):
+            out.append({"part": "split", "method": "mpfa", "grid": gk, "variant": 0, "inv": inv})
+        for mech in (1, 2, 3):
+            out.append({"part": "partial", "method": "mpfa", "grid": gk, "family": "cell1", "mech": mech, "inv": "python", "slice": [0, 1]})
     if tier == "quick":  # 3-d Cartesian letter (4 nodes per face, vector rows with nd = 3); thorough has the full 3-d set
         for m in METHODS:
             out.append({"part": "split", "method": m, "grid": "C222", "variant": 0, "inv": "python"})
